@@ -75,7 +75,7 @@ MenuOf(ped) ==
   IN  UNION {two(cls(pat)) : pat \in pats}
 
 VARIABLES pi,      \* index of the pedigree (fixed along a behaviour)
-          lay,     \* index of the layout (fixed)
+          lay,     \* index of the layout (0 = not chosen yet, then fixed)
           menu,    \* joint genotype states offered to Append; {} = not prepared yet
           steps,   \* the trace so far: sequence of joint genotype states, chain after chain
           flags,   \* per step, per individual: is the individual in error in that step
@@ -84,7 +84,7 @@ VARIABLES pi,      \* index of the pedigree (fixed along a behaviour)
 vars == <<pi, lay, menu, steps, flags, bad, kept>>
 
 Ped == Peds[pi]
-Lay == Layouts[lay]
+Lay == Layouts[IF lay = 0 THEN 1 ELSE lay]
 N == NInd(Ped)
 
 (* is the idx-th appended step retained?  (running form used by the counter)  *)
@@ -95,15 +95,29 @@ RetainedDef(idx, L) == LET c == (idx - 1) \div L.s
                        IN  pos > L.b
 
 Init == /\ pi \in 1..Len(Peds)
-        /\ lay \in 1..Len(Layouts)
+        /\ lay = 0
         /\ menu = {}
         /\ steps = <<>> /\ flags = <<>>
         /\ bad = [i \in 1..NInd(Peds[pi]) |-> 0]
         /\ kept = 0
 
-Prepare == /\ menu = {}
-           /\ menu' = IF Lay.full THEN AllJoint(Ped) ELSE MenuOf(Ped)
+(* the representatives are computed once per pedigree ...                     *)
+Prepare == /\ menu = {} /\ lay = 0
+           /\ menu' = MenuOf(Ped)
            /\ UNCHANGED <<pi, lay, steps, flags, bad, kept>>
+
+(* ... then the layout is chosen; the exhaustive one-step layout offers every  *)
+(* joint genotype state, split by the genotype of the last individual so that  *)
+(* the table is spread over TLC's workers                                      *)
+ChooseLayout ==
+  /\ menu # {} /\ lay = 0
+  /\ \E l \in 1..Len(Layouts) :
+       /\ lay' = l
+       /\ IF Layouts[l].full
+          THEN \E gN \in GenoSet(Ped.K, Ped.pl[N]) :
+                  menu' = {Append(j, gN) : j \in JointFrom(Ped, N - 1)}
+          ELSE menu' = menu
+  /\ UNCHANGED <<pi, steps, flags, bad, kept>>
 
 AppendStep(g) ==
   LET idx == Len(steps) + 1
@@ -115,11 +129,11 @@ AppendStep(g) ==
       /\ kept' = kept + (IF r THEN 1 ELSE 0)
       /\ UNCHANGED <<pi, lay, menu>>
 
-Step == /\ menu # {}
+Step == /\ lay # 0
         /\ Len(steps) < Lay.s * Lay.c
         /\ \E g \in menu : AppendStep(g)
 
-Next == Prepare \/ Step
+Next == Prepare \/ ChooseLayout \/ Step
 Spec == Init /\ [][Next]_vars
 
 (* ------------------------------------------------------------------------ *)
